@@ -131,6 +131,16 @@ func TestC20_CLI(t *testing.T) {
 		if rapid.Bool().Draw(t, "typo") {
 			words[0] = gen.Typo(t, words[0])
 		}
+		if rapid.IntRange(0, 3).Draw(t, "recovery-query") == 0 {
+			// nothing matches lexically or as a typo: only the last-resort recovery search answers
+			w := rapid.SampledFrom(toks).Draw(t, "frag-word")
+			frag := w[:max(2, len(w)-1)]
+			if rapid.Bool().Draw(t, "frag-first") {
+				words = []string{frag, "zzqxj"}
+			} else {
+				words = []string{"zzqxj", frag}
+			}
+		}
 		q1 := strings.Join(words, " ")
 		// second command line: re-cased, padded, split differently
 		var args2 []string
